@@ -51,7 +51,7 @@ type FedCase struct {
 }
 
 // Classify computes the decidable input regions used by KNOWN_FINDINGS (DESIGN §3 step 6).
-func Classify(doc *ast.QueryDocument, op *ast.OperationDefinition, st Store) []string {
+func Classify(doc *ast.QueryDocument, op *ast.OperationDefinition, st Store, vars map[string]interface{}) []string {
 	var cs []string
 	add := func(s string) {
 		for _, x := range cs {
@@ -69,14 +69,27 @@ func Classify(doc *ast.QueryDocument, op *ast.OperationDefinition, st Store) []s
 	}
 	knownID := func(f *ast.Field) bool {
 		a := f.Arguments.ForName("id")
-		if a == nil || a.Value == nil || a.Value.Kind != ast.StringValue {
+		if a == nil || a.Value == nil {
+			return false
+		}
+		idv := ""
+		switch a.Value.Kind {
+		case ast.StringValue:
+			idv = a.Value.Raw
+		case ast.Variable:
+			s, ok := vars[a.Value.Raw].(string)
+			if !ok {
+				return false
+			}
+			idv = s
+		default:
 			return false
 		}
 		for t, objs := range st {
 			if t == "Query" || t == "Mutation" {
 				continue
 			}
-			if _, ok := objs[a.Value.Raw]; ok {
+			if _, ok := objs[idv]; ok {
 				return true
 			}
 		}
@@ -178,7 +191,7 @@ func RunFed(c *Ctx, in FedInput, timeout time.Duration, opts ...gateway.Option) 
 		fc.Invalid = "no such operation"
 		return fc, nil
 	}
-	fc.Classes = Classify(doc, fc.Op, fc.Store)
+	fc.Classes = Classify(doc, fc.Op, fc.Store, in.Vars)
 	f, err := NewFed(in.Spec, fc.Store, opts...)
 	if err != nil {
 		return nil, fmt.Errorf("federation rejected: %w", err)
